@@ -10,6 +10,7 @@ def build(tier, seed):
         PUnit("all-restraints-of-a-residue", [R.FULFILL_C], R.REG),
         PUnit("direction-restriction", [R.IS_RESTRICTED], R.REG),
         PUnit("distance-milestones", [R.MILESTONES_C], R.REG),
+        PUnit("distance-restraint-bounds", [R.SET_DR], R.REG),
         LUnit("min-image-distance-unique", R.lemma_min_image_unique),
         LUnit("accepted-point-meets-restraints", R.lemma_accepted_point_meets_restraints),
     ] + [u for u in b_coords.UNITS if u.name == "c07-restraints"]
